@@ -156,3 +156,16 @@ func zzCountKey(list [][]byte, key []byte) int {
 	}
 	return c
 }
+
+// zzLexLess: a < b as byte strings (bytes.Compare order), one term.
+func zzLexLess(a, b []byte) bool {
+	m := len(a)
+	if len(b) < m {
+		m = len(b)
+	}
+	res := len(a) < len(b)
+	for i := m - 1; i >= 0; i-- {
+		res = rt.IteBool(a[i] == b[i], res, a[i] < b[i])
+	}
+	return res
+}
